@@ -371,6 +371,14 @@ def evaluate(ctx, deep):
                     ctx.count(f"qr:{fam}", key=("qr", tuple(np.round(U, 12).ravel().tolist())), nontrivial=True)
                     eval_case(ctx, U, "qr", False, 0, fam)
 
+    # QR beyond the sweep above: one Haar matrix at n = 4 (quick) / n = 4, 5 (deep) - sizes where the row / column bit patterns
+    # differ in up to four, five positions
+    for n in ((4, 5) if deep else (4,)):
+        U = make("haar", n, ctx.rng)
+        if no_zero_entries(U):
+            ctx.count("qr:haar", key=("qr", n, tuple(np.round(U[0], 12).tolist())), nontrivial=True)
+            eval_case(ctx, U, "qr", False, 0, "haar")
+
 
 def replay(ctx, case):
     U = unjson_array(case["matrix"]).astype(complex)
